@@ -151,9 +151,20 @@ class BaseLoadedMessage(LoadedMessageInterface):
 
     def get_header(self, name: bytes) -> Sequence[str]:
         try:
-            return self.content.header.parsed[name]
-        except (KeyError, _NoContent):
+            header = self.content.header
+        except _NoContent:
             return []
+        # the text as it was written, not as the parsed value (e.g. a date)
+        # would be rendered again
+        name_lower = name.lower()
+        values = [bytes(raw).partition(b':')[2]
+                  .replace(b'\r', b'').replace(b'\n', b'').strip()
+                  .decode('ascii', 'surrogateescape')
+                  for key, raw in header.folded if key == name_lower]
+        if any('=?' in value for value in values):
+            # and with its encoded words decoded
+            values.extend(header.parsed[name])
+        return values
 
     def get_headers(self, section: Sequence[int]) -> Writeable:
         try:
